@@ -33,6 +33,10 @@ pub struct Transaction<SP: StorageProvider, PS> {
     perspective: Option<SP::Perspective>,
     /// Head of the current perspective
     phead: Option<CmdId>,
+    /// Tips covered by the current perspective: removed from `heads` when it
+    /// was opened, still searched by `locate`, and restored if the perspective
+    /// is dropped without being written.
+    pbase: Vec<(CmdId, Location)>,
     /// Written but not committed heads
     heads: BTreeMap<CmdId, Location>,
     /// Tag for associated policy store
@@ -46,6 +50,7 @@ impl<SP: StorageProvider, PS> Transaction<SP, PS> {
             original_heads_offset: None,
             perspective: None,
             phead: None,
+            pbase: Vec::new(),
             heads: BTreeMap::new(),
             policy_store: PhantomData,
         }
@@ -71,8 +76,9 @@ impl<SP: StorageProvider, PS: PolicyStore> Transaction<SP, PS> {
         if let Some(found) = storage.get_location(address, buffer)? {
             return Ok(Some(found));
         }
-        // Search from our temporary heads.
-        for &head in self.heads.values() {
+        // Search from our temporary heads, and from the tips the in-flight
+        // perspective covers.
+        for &head in self.heads.values().chain(self.pbase.iter().map(|(_, l)| l)) {
             if let Some(found) = storage.get_location_from(head, address, buffer)? {
                 return Ok(Some(found));
             }
@@ -89,6 +95,7 @@ impl<SP: StorageProvider, PS: PolicyStore> Transaction<SP, PS> {
     pub fn flush(&mut self, storage: &mut SP::Storage) -> Result<(), ClientError> {
         if let Some(p) = Option::take(&mut self.perspective) {
             self.phead = None;
+            self.pbase.clear();
             let segment = storage.write(p)?;
             self.heads
                 .insert(segment.head_id(), segment.head_location()?);
@@ -276,6 +283,8 @@ impl<SP: StorageProvider, PS: PolicyStore> Transaction<SP, PS> {
         parent: Address,
         buffer: &mut TraversalBuffer,
     ) -> Result<(), ClientError> {
+        // A perspective opened just for this command holds no commands yet.
+        let fresh = self.phead != Some(parent.id);
         let perspective = self.get_perspective(parent, storage, buffer)?;
 
         let policy_id = perspective.policy();
@@ -292,6 +301,13 @@ impl<SP: StorageProvider, PS: PolicyStore> Transaction<SP, PS> {
         ) {
             perspective.revert(checkpoint)?;
             sink.rollback();
+            if fresh {
+                // Drop the perspective opened for this command: an empty
+                // perspective cannot be written out. Its parent is a tip again.
+                self.perspective = None;
+                self.phead = None;
+                self.heads.extend(self.pbase.drain(..));
+            }
             return Err(e.into());
         }
         perspective.add_command(command)?;
@@ -318,10 +334,7 @@ impl<SP: StorageProvider, PS: PolicyStore> Transaction<SP, PS> {
         MS: Fn() -> Result<F, StorageError>,
     {
         // Must always start a new perspective for merges.
-        if let Some(p) = Option::take(&mut self.perspective) {
-            let seg = storage.write(p)?;
-            self.heads.insert(seg.head_id(), seg.head_location()?);
-        }
+        self.flush(storage)?;
 
         let left_loc = self
             .locate(storage, left, &mut buffers.traversal.primary)?
@@ -353,8 +366,10 @@ impl<SP: StorageProvider, PS: PolicyStore> Transaction<SP, PS> {
         perspective.add_command(command)?;
 
         // These are no longer heads of the transaction, since they are both covered by the merge
-        self.heads.remove(&left.id);
-        self.heads.remove(&right.id);
+        self.pbase = [left.id, right.id]
+            .iter()
+            .filter_map(|id| self.heads.remove_entry(id))
+            .collect();
 
         self.perspective = Some(perspective);
         self.phead = Some(command.id());
@@ -381,11 +396,7 @@ impl<SP: StorageProvider, PS: PolicyStore> Transaction<SP, PS> {
         }
 
         // Write out the current perspective.
-        if let Some(p) = Option::take(&mut self.perspective) {
-            self.phead = None;
-            let seg = storage.write(p)?;
-            self.heads.insert(seg.head_id(), seg.head_location()?);
-        }
+        self.flush(storage)?;
 
         let loc = self
             .locate(storage, parent, buffer)?
@@ -397,7 +408,7 @@ impl<SP: StorageProvider, PS: PolicyStore> Transaction<SP, PS> {
             .insert(storage.get_linear_perspective(loc)?);
 
         self.phead = Some(parent.id);
-        self.heads.remove(&parent.id);
+        self.pbase = self.heads.remove_entry(&parent.id).into_iter().collect();
 
         Ok(p)
     }
